@@ -153,6 +153,7 @@ func (fs *renterSigner) SignHash(h types.Hash256) types.Signature { return fs.pk
 type env struct {
 	cm                 *chain.Manager
 	hostKey, renterKey types.PrivateKey
+	poorKey            types.PrivateKey // owner of an account that is never funded
 	hw, rw             *wallet.SingleAddressWallet
 	hws, rws           *testutil.EphemeralWalletStore
 	ec                 *testutil.EphemeralContractor
@@ -237,6 +238,7 @@ func newEnv(r *rng.R, poolSize int) *env {
 	must(err, "dbstore")
 	e.cm = chain.NewManager(db, tipstate)
 	e.hostKey, e.renterKey = keyFrom(r), keyFrom(r)
+	e.poorKey = keyFrom(r)
 
 	e.hws, e.rws = testutil.NewEphemeralWalletStore(), testutil.NewEphemeralWalletStore()
 	e.hw, err = wallet.NewSingleAddressWallet(keyFrom(r), e.cm, e.hws, &testutil.MockSyncer{})
@@ -373,6 +375,7 @@ type snap struct {
 	revBytes []byte
 	roots    []types.Hash256
 	acct     types.Currency
+	acct2    types.Currency // the unfunded second account
 }
 
 func encodeRev(rev types.V2FileContract) []byte {
@@ -401,5 +404,6 @@ func (e *env) snapshot() snap {
 	s := snap{rev: st.Revision, revBytes: encodeRev(st.Revision), roots: append([]types.Hash256(nil), st.Roots...)}
 	unlock()
 	s.acct, _ = e.ec.AccountBalance(e.account)
+	s.acct2, _ = e.ec.AccountBalance(proto4.Account(e.poorKey.PublicKey()))
 	return s
 }
